@@ -16,6 +16,7 @@ import RotoV.Model.Typing
 import RotoV.Model.TcRules
 import RotoV.Model.Unify
 import RotoV.Lemmas.TcRules
+import RotoV.Lemmas.Unify
 
 namespace RotoV.C07
 open RotoV.Typing RotoV.TcRules
@@ -78,6 +79,105 @@ example : assignAccepts false .local = true := by decide
     `const A: i32 = 5; fn main() -> i32 { A = 6; A }` compiled. -/
 theorem assign_without_test_accepts_constant :
     assignAcceptsWith false .constant = true ∧ assignAcceptsWith false .context = true := by decide
+
+/-! ## T2 — unification
+
+  FULL STATEMENT (DESIGN §4 C07 T2, not proved in this form):
+    if `unify a b` succeeds then the fully resolved `a` and `b` are equal up to
+    `Never`; an `IntVar` only ever resolves to an integer type (a signed one
+    if `MustBeSigned`), a `FloatVar` only to a float type, a `RecordVar` only
+    to a record with exactly those fields.
+  PROVED below (`unify_sound_partial` and its corollaries), for every history
+  of `fresh_*` / `unify` / `Negate`-marking steps on the union-find store and
+  every fuel: the *kind discipline* — a slot created by `fresh_int` never
+  resolves to anything but an integer-literal variable or a parameterless
+  integer type, and once it has been negated only to a must-be-signed variable
+  or a *signed* integer type; a `fresh_float` slot only to a float variable or
+  float type; a `fresh_record` slot only to a record variable, an anonymous
+  record or a named record type.
+  MISSING: (1) equality of the two resolved sides after a successful `unify`
+  (needs deep resolution through pointer chains); (2) "with exactly those
+  fields" for record variables (the proof tracks that the target is a record,
+  not the field names). Both are covered by the differential run of
+  `Unify.unify` against the real `unify_inner` (hook) and by the
+  literal-variable phase, not by a theorem. -/
+
+open RotoV.Unify in
+/-- **T2 `unify_sound_partial`.** After ANY history of steps on the store
+    (well-formed: every type mentions a variable only at the kind it was created
+    with), whatever `find` returns for a slot is admissible for the kind of
+    that slot (`Resolved`). The predicates the `IntVar × Name` and
+    `FloatVar × Name` arms ask (`is_signed_int` / `is_int` / `is_float`, no type
+    arguments) and the priority rule of `unify_intvars` are read off the source
+    on every run (`Gen.C07Facts`), so dropping the `MustBeSigned` test breaks
+    this proof. -/
+theorem unify_sound_partial (d : Defs) (fuel : Nat) (ops : List Op)
+    (hd : DefsOk d (kindOf ops)) (hwf : ∀ op ∈ ops, op.ok (kindOf ops) = true)
+    (n i : Nat) (t : MTy) (h : find (run d fuel ops).s n i = some t) :
+    Resolved d (kindOf ops) (run d fuel ops).D i t :=
+  find_resolved (run_inv d fuel ops hd hwf) n i t h
+
+open RotoV.Unify in
+/-- an integer-literal variable only ever resolves to an integer type -/
+theorem intvar_only_integers (d : Defs) (fuel : Nat) (ops : List Op)
+    (hd : DefsOk d (kindOf ops)) (hwf : ∀ op ∈ ops, op.ok (kindOf ops) = true)
+    (n i : Nat) (t : MTy) (hk : kindOf ops i = .iv) (h : find (run d fuel ops).s n i = some t) :
+    (∃ j sg, t = .intVar j sg) ∨ (∃ m, t = .name m [] ∧ d.isInt m = true) := by
+  have := unify_sound_partial d fuel ops hd hwf n i t h
+  unfold Resolved at this
+  rw [hk] at this
+  rcases this with ⟨j, sg, he, _⟩ | ⟨m, he, hi, _⟩
+  · exact Or.inl ⟨j, sg, he⟩
+  · exact Or.inr ⟨m, he, hi⟩
+
+open RotoV.Unify in
+/-- … and, once negated, only to a signed one (or to a variable that is itself
+    marked must-be-signed) -/
+theorem must_be_signed_respected (d : Defs) (fuel : Nat) (pre post : List Op) (u : MTy)
+    (hd : DefsOk d (kindOf (pre ++ .mark u :: post)))
+    (hwf : ∀ op ∈ pre ++ .mark u :: post, op.ok (kindOf (pre ++ .mark u :: post)) = true)
+    (i : Nat) (hneg : resolve (run d fuel pre).s u = some (.intVar i false))
+    (hk : kindOf (pre ++ .mark u :: post) i = .iv)
+    (n : Nat) (t : MTy) (h : find (run d fuel (pre ++ .mark u :: post)).s n i = some t) :
+    (∃ j, t = .intVar j true) ∨ (∃ m, t = .name m [] ∧ d.isSignedInt m = true) := by
+  have hD := mark_persists d fuel pre post u i hneg
+  have := unify_sound_partial d fuel _ hd hwf n i t h
+  unfold Resolved at this
+  rw [hk] at this
+  rcases this with ⟨j, sg, he, hs⟩ | ⟨m, he, _, hs⟩
+  · have := hs hD; subst this; exact Or.inl ⟨j, he⟩
+  · exact Or.inr ⟨m, he, hs hD⟩
+
+open RotoV.Unify in
+/-- a float-literal variable only ever resolves to a float type -/
+theorem floatvar_only_floats (d : Defs) (fuel : Nat) (ops : List Op)
+    (hd : DefsOk d (kindOf ops)) (hwf : ∀ op ∈ ops, op.ok (kindOf ops) = true)
+    (n i : Nat) (t : MTy) (hk : kindOf ops i = .fv) (h : find (run d fuel ops).s n i = some t) :
+    (∃ j, t = .floatVar j) ∨ (∃ m, t = .name m [] ∧ d.isFloat m = true) := by
+  have := unify_sound_partial d fuel ops hd hwf n i t h
+  unfold Resolved at this
+  rw [hk] at this
+  exact this
+
+open RotoV.Unify in
+/-- a record variable only ever resolves to a record -/
+theorem recordvar_only_records_partial (d : Defs) (fuel : Nat) (ops : List Op)
+    (hd : DefsOk d (kindOf ops)) (hwf : ∀ op ∈ ops, op.ok (kindOf ops) = true)
+    (n i : Nat) (t : MTy) (hk : kindOf ops i = .rv) (h : find (run d fuel ops).s n i = some t) :
+    (∃ j fs, t = .recordVar j fs) ∨ (∃ fs, t = .record fs) ∨
+    (∃ m args, t = .name m args ∧ (d.recordFields m).isSome = true) := by
+  have := unify_sound_partial d fuel ops hd hwf n i t h
+  unfold Resolved at this
+  rw [hk] at this
+  exact this
+
+/-- non-vacuity: `let y = 1; -y;` then `y` against `i32` unifies, against `u32` does not -/
+example :
+    let d : RotoV.Unify.Defs := fun n => if n < 4 then .int false else if n < 8 then .int true else .other
+    let ops : List RotoV.Unify.Op := [.fresh .iv [], .mark (.intVar 0 false), .unify (.intVar 0 false) (.name 2 []),
+      .unify (.intVar 0 false) (.name 6 [])]
+    (match RotoV.Unify.find (RotoV.Unify.run d 8 ops).s 4 0 with
+      | some (.name 6 []) => true | _ => false) = true := by decide +kernel
 
 /-! ## T4 — match bookkeeping -/
 
